@@ -69,6 +69,21 @@ CHECKS = {
             "edited mark must change exactly that parameter of the recompiled program.",
             "Trusts my renderer's line/column bookkeeping (cross-checked by the edit clause hitting the right text).",
             "DESIGN.md 3/C18"),
+    "C02": ("translation_validation",
+            "runtime monitoring: lock-step product monitor between the input SSB machine and (a) the emitted text read by the reference semantics, (b) the recompiled text",
+            "Every structured answer of the real decompiler on well-formed routine sets is compiled again and compared with the "
+            "input under every outcome of every test, both as read by an independent reference semantics (T2A + M-REF) and as "
+            "recompiled. Strict on structured classes (shape catalogue, flat programs, compiled label-free programs); on "
+            "unstructured classes mis-structuring is the open finding K05 (printed, not counted).",
+            "Trusts M-REF, T2A (repo grammar for the tree shape), M-SSB; dungeon-mode 0..3 <-> constant tolerated as the property allows.",
+            "DESIGN.md 3/C02"),
+    "C06": ("exploration",
+            "runtime monitoring: K-DECOMPILE wrapper on the real convert() (exceptions, result type, marker), fallback exactness by recompiling, sys.monitoring step counter as bounded-progress oracle",
+            "Well-formed routine sets of four kinds (compiler-shaped, re-laid-out, random flow graphs, special opcodes) are "
+            "converted once each under the monitor; an exception, a runaway call (step bound), a malformed marker or a "
+            "fallback text that does not reproduce the input op for op is a violation.",
+            "'Always answers' is restated as a step bound measured on the unchanged tree (x200); worker crashes inside an announced call count as 'did not answer'.",
+            "DESIGN.md 3/C06"),
 }
 
 NOT_YET = {
